@@ -132,7 +132,7 @@ type encCase struct {
 func (e *encCase) tag() string {
 	o := e.Opts
 	return fmt.Sprintf("enc:%dx%d:k%d:q%g:m%d:s%d:p%d:f%d.%d.%d:sns%d:pre%d:pass%d", e.W, e.H, e.Kind, o.Quality, o.Method, o.Segments, o.Partitions,
-		o.FilterStrength, o.FilterSharpness, o.FilterType, o.SNSStrength, o.Preset, o.Pass)
+		o.FilterStrength, o.FilterSharpness, o.FilterType, o.SNSStrength, o.Preset, o.Pass) + fmt.Sprintf(".ts%d.psnr%g", o.TargetSize, o.TargetPSNR)
 }
 
 // withFeature adds a deviation class to the second field of a tag.
@@ -262,6 +262,14 @@ func encoderStreams(c *Ctx) {
 		o.Pass = r.Pick(1, 1, 2, 3)
 		if r.Intn(8) == 0 {
 			o.UseSharpYUV = true
+		}
+		if r.Intn(5) == 0 { // rate-control search (serial frame loop), early and late convergence
+			o.Pass = r.Pick(1, 2, 3, 4, 6, 10)
+			if r.Bool() {
+				o.TargetSize = r.Pick(150, 400, 900, 2500)
+			} else {
+				o.TargetPSNR = float32(r.Pick(28, 34, 38, 42))
+			}
 		}
 		e.Opts = *o
 		im := genImage(r, e.W, e.H, e.Kind)
